@@ -61,6 +61,9 @@ MUTATIONS += [
     ('coord-arity-2', lambda d: d['data'].__setitem__(0, d['data'][0][:2])),
     ('coord-arity-4', lambda d: d['data'].__setitem__(1, d['data'][1] + [7])),
     ('coord-x-float', lambda d: d['data'][0].__setitem__(0, 0.5)),
+    ('coord-x-bool', lambda d: d['data'][0].__setitem__(0, True)),
+    ('coord-y-bool', lambda d: d['data'][1].__setitem__(1, False)),
+    ('shape-bool', lambda d: d.__setitem__('shape', [True, d['shape'][1]])),
     ('coord-y-string', lambda d: d['data'][1].__setitem__(1, '1')),
     ('value-string', lambda d: d['data'][0].__setitem__(2, 'abc')),
     ('value-none', lambda d: d['data'][1].__setitem__(2, None)),
@@ -108,7 +111,7 @@ def P(d):
         if not isinstance(c, list) or len(c) != 3:
             return False
         x, y, v = c
-        if not (isinstance(x, int) and isinstance(y, int)):
+        if not (isinstance(x, int) and isinstance(y, int)) or isinstance(x, bool) or isinstance(y, bool):
             return False
         if not (0 <= x < sh[0] and 0 <= y < sh[1]):
             return False
@@ -127,7 +130,7 @@ def _valid(doc):
 
 def json_valid_implies_wellformed(mut: int, a: int, b: int, x1: int, y1: int, x2: int, y2: int) -> bool:
     """
-    require: 0 <= mut < 45
+    require: 0 <= mut < 48
     """
     d = base_doc()
     d['shape'] = [a, b]
@@ -138,7 +141,7 @@ def json_valid_implies_wellformed(mut: int, a: int, b: int, x1: int, y1: int, x2
 
 def json_two_mutations(m1: int, m2: int, a: int, b: int, x1: int, y1: int) -> bool:
     """
-    require: 0 <= m1 < 45 and 0 <= m2 < 45
+    require: 0 <= m1 < 48 and 0 <= m2 < 48
     """
     d = base_doc()
     d['shape'] = [a, b]
@@ -184,7 +187,7 @@ def signature(function, fixed, argtxt):
 
 
 def shards(tier):
-    assert len(MUTATIONS) == 45, len(MUTATIONS)
+    assert len(MUTATIONS) == 48, len(MUTATIONS)
     out = [('wellformed_is_accepted', {})]
     for m in range(len(MUTATIONS)):
         out.append(('json_valid_implies_wellformed', {'mut': m}))
